@@ -19,7 +19,7 @@ WALL = {'quick': 150, 'thorough': 3000}
 CHUNK = 6
 DET_K = 3
 CASE_TIMEOUT = 600
-SELFTEST = {'quick': 24, 'thorough': 96}
+SELFTEST = {'quick': 8, 'thorough': 96}
 TOL = 1e-9
 RULE = ('case = (grid sizes, v spline degree 2-5 [3 = uniform-cubic path], constants with rotational '
         'transform zero or not, boundary mode fEq / null / periodic, dt of either sign, random f and a random '
